@@ -151,8 +151,8 @@ fn gen_plan(rng: &mut Rng, cfg: &Cfg, calls: u32, total_bytes: u64, reader: bool
     if reader {
         // one reader in eight is a real std adaptor stacked on the simulated reader; one in ten answers a call made
         // after the stream was drained with WouldBlock
-        if rng.chance(1, 8) {
-            p.flavour = rng.range(1, 3) as u8;
+        if rng.chance(1, 6) {
+            p.flavour = rng.range(1, 7) as u8;
             p.cut = rng.below(total_bytes.max(1) + 1).min(u32::MAX as u64) as u32;
         }
         if rng.chance(1, 10) {
